@@ -3,7 +3,8 @@
    T = the class table regenerated from the ampform package on this run. *)
 From Coq Require Import String List ZArith QArith Bool.
 From AV Require Import Uneval Uneval_proofs.
-From AVchk Require Import ClassTable C14_lemmas.
+From AV Require Import PyModel.
+From AVchk Require Import ClassTable C14_lemmas Gen_decorator C14_decorator_lemmas.
 Import ListNotations.
 Open Scope string_scope.
 
@@ -89,6 +90,73 @@ Example keyword_order_example :
   new_kw cBZ [VE (sy "b")] [("n_events", VE (sy "n"))] = Unev cBZ [sy "b"; sy "n"] [].
 Proof. exact ex_kw_order. Qed.
 
+(* ================= theorems about the definitions TRANSLATED from the current text of _decorator.py
+   (build/C14/Gen_decorator.v; object model and specifications in coq/theories/PyModel.v) ================= *)
+
+(* _get_hashable_object: classes -> qualified name; every hashable non-class object -> ITSELF;
+   unhashable -> str; None -> the key of NoneType *)
+Theorem hashable_class_is_qualname : forall q, gen__get_hashable_object (PClass q) = KStr q.
+Proof. exact d_class. Qed.
+Theorem hashable_object_is_itself : forall k id q, gen__get_hashable_object (PHash k id q) = KObj (PHash k id q).
+Proof. exact d_itself. Qed.
+Theorem hashable_unhashable_is_str : forall s, gen__get_hashable_object (PUnhash s) = KStr s.
+Proof. exact d_unhashable. Qed.
+Theorem hashable_none_is_nonetype :
+  gen__get_hashable_object PNone = gen__get_hashable_object none_type /\
+  gen__get_hashable_object PNone = KStr "builtins.NoneType".
+Proof. exact d_none. Qed.
+(* collisions happen only among objects whose key is a string (None, classes, unhashables, str) — the
+   known finding hashable_content_none_collision and its relatives — never with/among other objects *)
+Theorem hashable_collisions_only_stringly : forall o1 o2,
+  nkey (gen__get_hashable_object o1) = nkey (gen__get_hashable_object o2) ->
+  o1 = o2 \/ (stringly o1 = true /\ stringly o2 = true) \/
+  (exists id q q', o1 = PHash KStrK id q /\ o2 = PHash KStrK id q').
+Proof. exact d_collisions. Qed.
+Theorem hashable_functions_and_value_objects_never_identified : forall k id q o,
+  k <> KStrK -> nkey (gen__get_hashable_object (PHash k id q)) = nkey (gen__get_hashable_object o) -> o = PHash k id q.
+Proof. exact d_never_identified. Qed.
+
+(* _extract_field_values: keys in DECLARATION order; value i = args[i] | kwargs[name] | default *)
+Theorem extract_declaration_order_and_values : forall cls args kw d rest,
+  NoDup (names cls) -> gen__extract_field_values cls args kw = Ok (d, rest) ->
+  d = combine cls (args ++ map (value_of kw) (skipn (length args) cls)) /\ map fst d = cls.
+Proof. exact e_shape. Qed.
+Theorem extract_keyword_order_irrelevant : forall cls args kw kw',
+  NoDup (names cls) -> NoDup (map fst kw) -> Permutation.Permutation kw kw' ->
+  result_equiv (gen__extract_field_values cls args kw) (gen__extract_field_values cls args kw').
+Proof. exact e_kw_order. Qed.
+Theorem extract_too_many_positionals : forall cls args kw,
+  (length cls < length args)%nat -> gen__extract_field_values cls args kw = Err 0 [].
+Proof. exact e_too_many. Qed.
+Theorem extract_missing_lists_exactly_the_missing : forall cls args kw,
+  NoDup (names cls) -> (length args < length cls)%nat ->
+  names (filter (is_unfilled kw) (skipn (length args) cls)) <> [] ->
+  gen__extract_field_values cls args kw = Err 1 (names (filter (is_unfilled kw) (skipn (length args) cls))).
+Proof. exact e_missing. Qed.
+Theorem extract_leftover_kwargs : forall cls args kw d rest,
+  NoDup (names cls) -> NoDup (map fst kw) -> length args <> length cls ->
+  gen__extract_field_values cls args kw = Ok (d, rest) -> rest = kw_minus kw (names (skipn (length args) cls)).
+Proof. exact e_leftover. Qed.
+
+(* _get_arguments: ALL field values in declaration order, nothing dropped *)
+Theorem getnewargs_all_fields : forall x,
+  gen__get_arguments x = map (fun f => get_attr x (pf_name f)) (i_cls x) /\
+  length (gen__get_arguments x) = length (i_cls x).
+Proof. exact g_all_fields. Qed.
+(* new_method o _get_arguments = identity (the C15 contract), on the generated definitions *)
+Theorem new_method_rebuilds_from_getnewargs : forall cls vals,
+  NoDup (names cls) -> length vals = length cls -> Forall2 (fun f v => safe_sympify f v = v) cls vals ->
+  gen_new_method cls (gen__get_arguments (mk_inst cls vals)) [] false = Ok (mk_inst cls vals).
+Proof. exact n_rebuild. Qed.
+Example translated_helpers_example :
+  NoDup (names ex_cls) /\
+  gen__extract_field_values ex_cls [VSym "s"] [("m2", VRaw "2"); ("m1", VSym "m")] =
+    Ok (combine ex_cls [VSym "s"; VSym "m"; VRaw "2"; VObj PNone], []) /\
+  gen__extract_field_values ex_cls [VSym "s"] [("m2", VRaw "2")] = Err 1 ["m1"] /\
+  gen_new_method ex_cls [VSym "s"] [("m2", VRaw "2"); ("m1", VSym "m")] false =
+    Ok (mk_inst ex_cls [VSym "s"; VSym "m"; VSym "2"; VObj PNone]).
+Proof. exact ex_extract. Qed.
+
 (* non-vacuity *)
 Example hypotheses_satisfiable :
   avoids gen_table w_num_map = true /\ images_ok gen_table w_num_map = true /\ wfi gen_table w_nested = true /\
@@ -121,6 +189,20 @@ Print Assumptions content_conversion_collision.
 Print Assumptions rebuild_all_sympy_fields.
 Print Assumptions keyword_order_irrelevant.
 Print Assumptions keyword_order_example.
+Print Assumptions hashable_class_is_qualname.
+Print Assumptions hashable_object_is_itself.
+Print Assumptions hashable_unhashable_is_str.
+Print Assumptions hashable_none_is_nonetype.
+Print Assumptions hashable_collisions_only_stringly.
+Print Assumptions hashable_functions_and_value_objects_never_identified.
+Print Assumptions extract_declaration_order_and_values.
+Print Assumptions extract_keyword_order_irrelevant.
+Print Assumptions extract_too_many_positionals.
+Print Assumptions extract_missing_lists_exactly_the_missing.
+Print Assumptions extract_leftover_kwargs.
+Print Assumptions getnewargs_all_fields.
+Print Assumptions new_method_rebuilds_from_getnewargs.
+Print Assumptions translated_helpers_example.
 Print Assumptions hypotheses_satisfiable.
 Print Assumptions guard_condition_needed.
 Print Assumptions all_sympy_class_exists.
